@@ -57,10 +57,10 @@ func c05CliWorld(rc *RunCtx) {
 		}
 		for p := t.WRange(1, 3); p > 0; p-- {
 			a, b := sc.Keys[t.W(len(sc.Keys))], sc.Keys[t.W(len(sc.Keys))]
-			if a == b || final[b] < 1 {
+			if a == b || final[b] < 2 {
 				continue
 			}
-			d := 1 + t.W(final[b])
+			d := 1 + t.W(final[b]-1) // every key keeps a positive count (what the renderers do with zero or negative rows is C14's subject)
 			final[a] += d
 			final[b] -= d
 			ls = append(ls, c3Line{Raw: fmt.Sprintf("%s\t%d", a, d)}, c3Line{Raw: fmt.Sprintf("%s\t-%d", b, d)})
